@@ -249,7 +249,7 @@ open Pog.Prs
     tracker gave.  (`Shaped` = Dyck words + the double-exit fall-through; it is not `WellBracketed`,
     see `parse_not_well_bracketed_counterexample`.) -/
 theorem parse_emits_shaped (decls : Decls) (fuel : Nat) (name : Option Str) (node : Node) (allow : Bool)
-    (s : PSt) :
+    (s : Prs.PSt) :
     ∃ w, (parse decls fuel name node allow s).2.trace = s.trace ++ w ∧ Shaped w ∧
       (parse decls fuel name node allow s).2.tr = runEvs s.tr w ∧ Consistent s.tr w :=
   parse_good decls fuel name node allow s
@@ -271,7 +271,7 @@ theorem build_schemas_shaped (maxDepth fuel : Nat) (decls : Decls) :
     cycles, cycles through arrays / maps / compositions / inline objects), every nesting, every depth
     limit, and also when the model ran out of fuel.  Saturation of the depth counter is part of why. -/
 theorem rest_state_after_toplevel (decls : Decls) (fuel : Nat) (name : Option Str) (node : Node)
-    (allow : Bool) (s : PSt) (h : s.tr.AtRest) : (parse decls fuel name node allow s).2.tr.AtRest := by
+    (allow : Bool) (s : Prs.PSt) (h : s.tr.AtRest) : (parse decls fuel name node allow s).2.tr.AtRest := by
   obtain ⟨w, _, hs, hr, _⟩ := parse_good decls fuel name node allow s
   rw [hr]
   exact rest_state_after_word s.tr w h hs
@@ -394,7 +394,7 @@ example : ∀ d ∈ ([("User".toList, cObj [("group", cRef "UserGroup")]),
 /-- The registry never loses a key: whatever `_parse_schema` call, a name registered before is
     registered after (its VALUE may be replaced). -/
 theorem registry_only_grows (decls : Decls) (fuel : Nat) (name : Option Str) (node : Node) (allow : Bool)
-    (s : PSt) (k : Str) (h : s.regHas k = true) : (parse decls fuel name node allow s).2.regHas k = true :=
+    (s : Prs.PSt) (k : Str) (h : s.regHas k = true) : (parse decls fuel name node allow s).2.regHas k = true :=
   parse_frame regMono_frame decls fuel name node allow s k h
 
 end Pog.C08
